@@ -193,6 +193,18 @@ def t_types( ctx ):
         res.bad( src, src.get( 'typed_data.__init__' ), 'typed_data dispatch lacks %s' % mm, 'every supported type needs a dispatch row' )
     if rows < 14:
         raise AnalysisError( 'typed_data dispatch rows found: %d < 14' % rows )
+    # producing side: typed_data.produce encodes every element through the element type's OWN produce() ( some types override it: BOOL emits
+    # 0xFF for True ), looked up in the same TYPES_SUPPORTED table the parser dispatches on - it never packs elements itself
+    tp = src.get( 'typed_data.produce' )
+    packs = [ c for c in ast.walk( tp ) if is_call_to( c, 'struct.pack', 'struct.pack_into', 'pack' ) ]
+    prods = [ a for a in walk_no_nested( tp ) if isinstance( a, ast.Assign ) and isinstance( a.value, ast.Attribute ) and a.value.attr == 'produce'
+              and any( isinstance( x, ast.Subscript ) and ( dotted( x.value ) or '' ).endswith( 'TYPES_SUPPORTED' ) for x in ast.walk( a.value )) ]
+    if packs:
+        res.bad( src, packs[0], 'typed_data.produce packs elements itself ( %s )' % norm_text( packs[0] )[:70], 'the element type\'s own produce() is by-passed: an overriding encoder ( BOOL: True is 0xFF on the wire ) is lost, so produced data differs from what the type class - and any other encoder - emits' )
+    elif prods:
+        res.ok( src, prods[0], 'typed_data.produce encodes elements with TYPES_SUPPORTED[tag_type].produce only' )
+    else:
+        raise AnalysisError( 'typed_data.produce: the per-type producer ( TYPES_SUPPORTED[tag_type].produce ) not found' )
     return res
 
 
@@ -238,6 +250,22 @@ def t_allowed( ctx ):
         T = dotted( k )[:-len( '.tag_type' )].split( '.' )[-1]
         if not isinstance( v, ( ast.Tuple, ast.List, ast.Set )):
             raise AnalysisError( 'row of %s is not a tuple literal' % T )
+        TEXT = ( 'STRING', 'SSTRING', 'STRUCT' )		# no scalar value range: capacity and layout are the type's own ( SSTRING: < 256 octets )
+        def admitted_names( v_ ):
+            for a_ in v_.elts:
+                ad_ = dotted( a_ )
+                if ad_ is None or not ad_.endswith( '.tag_type' ):
+                    raise AnalysisError( 'cell %s of row %s not of the form X.tag_type' % ( norm_text( a_ ), T ))
+                yield a_, ad_[:-len( '.tag_type' )].split( '.' )[-1]
+        if T in TEXT or any( A_ in TEXT for _, A_ in admitted_names( v )):
+            for a, A in admitted_names( v ):
+                res.cells += 1
+                if A == T:
+                    res.ok( src, a, '%s tag <- %s data: the type itself' % ( T, A ))
+                else:
+                    res.bad( src, a, 'allowed_tag_types[%s] admits %s' % ( T, A ),
+                             'text / structure types have their own capacity and layout: e.g. a STRING of 256 or more octets written into an SSTRING tag is acknowledged, then every read fails in SSTRING.produce ( must be < 256 ) - the accepted write made the tag unreadable' )
+            continue
         lo_t, hi_t, kind_t = _value_range( ctx, T )
         for a in v.elts:
             ad = dotted( a )
@@ -1259,6 +1287,55 @@ def t_tnet( ctx ):
             res.ok( tsrc, tp, 'DATA has a TYPE edge for each of the %d tags' % len( types ))
         else:
             res.bad( tsrc, tp, 'DATA edges %s' % sorted( edge_syms ), 'every tag in TYPES needs an edge DATA --tag--> TYPE' )
+    # the two parsers REFUSE the same payloads: per tag, the assertions the streaming conversion makes about the payload are the ones the batch
+    # conversion makes ( compared with the payload name abstracted, operands of == in canonical order ) - an extra guard on the streaming side
+    # ( "digits only" ahead of int() ) makes it fail on messages the serialiser emits and the batch parser accepts ( negative integers )
+    t2 = ctx.src( 'server/tnet.py' ); b2 = ctx.src( 'server/tnetstrings.py' )
+    def tag_branches( fn, var_hint ):
+        out = {}
+        for i_ in ast.walk( fn ):
+            if isinstance( i_, ast.If ) and isinstance( i_.test, ast.Compare ) and len( i_.test.ops ) == 1 and isinstance( i_.test.ops[0], ast.Eq ):
+                for side in ( i_.test.left, i_.test.comparators[0] ):
+                    v_ = try_fold( side, default=None )
+                    if isinstance( v_, int ):
+                        v_ = bytes( bytearray( [ v_ ] ))
+                    if isinstance( v_, bytes ) and len( v_ ) == 1:
+                        out[v_] = i_.body
+        return out
+    def payload_asserts( body, var ):
+        out = set()
+        class Ren( ast.NodeTransformer ):
+            def visit_Name( self, n ):
+                return ast.copy_location( ast.Name( id='P' if n.id == var else n.id, ctx=n.ctx ), n )
+        for st in body:
+            for a_ in ast.walk( st ):
+                if isinstance( a_, ast.Assert ) and var in names_in( a_.test ) and not ( isinstance( a_.test, ast.Constant )):
+                    t_ = Ren().visit( ast.parse( ast.unparse( a_.test ), mode='eval' ).body )
+                    if isinstance( t_, ast.Compare ) and len( t_.ops ) == 1 and isinstance( t_.ops[0], ast.Eq ):
+                        out.add( '=='.join( sorted( [ ast.unparse( t_.left ), ast.unparse( t_.comparators[0] ) ] )))
+                    else:
+                        out.add( ast.unparse( t_ ))
+        return out
+    sp = t2.get( 'tnet_machine.tnet_parser.process' ); bp = b2.get( 'parse' )
+    # payload names: streaming - the local converted in the branches; batch - first element of the tuple returned by parse_payload
+    SV = None
+    for a_ in walk_no_nested( sp ):
+        if isinstance( a_, ast.Assign ) and isinstance( a_.targets[0], ast.Name ) and any( isinstance( c_, ast.Attribute ) and c_.attr in ( 'tobytes', 'tostring' ) for c_ in ast.walk( a_.value )):
+            SV = a_.targets[0].id
+    BV = None
+    for a_ in walk_no_nested( bp ):
+        if isinstance( a_, ast.Assign ) and isinstance( a_.targets[0], ast.Tuple ) and is_call_to( a_.value, 'parse_payload' ):
+            BV = a_.targets[0].elts[0].id
+    if SV is None or BV is None:
+        raise AnalysisError( 'T-TNET: payload variables of the streaming / batch conversions not found' )
+    sb, bb = tag_branches( sp, SV ), tag_branches( bp, BV )
+    for tag in sorted( set( sb ) & set( bb )):
+        extra = payload_asserts( sb[tag], SV ) - payload_asserts( bb[tag], BV )
+        if extra:
+            res.bad( t2, sb[tag][0], 'tag %r: the streaming conversion asserts %s about the payload, the batch conversion does not' % ( tag, sorted( extra )),
+                     'messages the serialiser emits and tnetstrings.parse accepts ( e.g. a negative integer ) make the streaming parser raise: the two parsers disagree on a supported type, and the rest of the stream is lost' )
+        else:
+            res.ok( t2, sb[tag][0], 'tag %r: the streaming conversion refuses no payload the batch conversion accepts ( same assertions )' % tag )
     return res
 
 
@@ -1932,5 +2009,13 @@ def t_zonetoken( ctx ):
                      '; '.join( w for _, w in emits ), hit[0] ))
     else:
         res.ok( src, ps, 'the separator table is not applied to the zone designator' )
+    # while the table IS applied to the whole text ( the known finding above ), it must at least consist of punctuation only: a letter or digit
+    # in it blanks that character inside every zone name and abbreviation - designators that round-trip today ( 'America/Toronto', 'UTC', 'MST' ) stop parsing
+    alnum = sorted( c_ for c_ in set( frm ) if c_.isalnum() )
+    if whole is not None and alnum:
+        res.bad( src, ts, 'timestamp._timeseps blanks the alphanumeric character(s) %r in the whole text' % ''.join( alnum ),
+                 "every zone name or abbreviation containing it is torn apart ( 'America/Toronto' -> 'America/ oronto', 'UTC' -> 'U C' ): render( zone, tzdetail=True ) followed by parse raises for those zones instead of returning the instant" )
+    else:
+        res.ok( src, ts, 'the separator table holds punctuation only ( %r )' % frm )
     res.ok( src, rn, 'render() zone designator forms: %d' % len( emits ), nontrivial=False )
     return res
